@@ -668,6 +668,50 @@ func c13Check(a c13Action, s c13Spec, announced []byte) (key string, err error) 
 			}
 		}
 	}
+	if a.Builder == "GetHandoverRequired" || a.Builder == "BuildHandoverRequired" {
+		// the target gNB id and target cell are arguments too: they must be found in the Target ID and, inside the
+		// source-to-target transparent container, at the head of the target NR cell identity (36 bits = the id
+		// followed by the leading bits of the cell argument)
+		hr := d.InitiatingMessage.Value.HandoverRequired
+		want36 := append(append([]byte{}, a.TargetGNB...), a.TargetCell...)
+		if len(want36) >= 5 {
+			want36 = append([]byte{}, want36[:5]...)
+			want36[4] &= 0xf0
+		}
+		seenTarget, seenContainer := false, false
+		for _, ie := range hr.ProtocolIEs.List {
+			switch ie.Id.Value {
+			case ngapType.ProtocolIEIDTargetID:
+				t := ie.Value.TargetID
+				if t == nil || t.TargetRANNodeID == nil || t.TargetRANNodeID.GlobalRANNodeID.GlobalGNBID == nil || t.TargetRANNodeID.GlobalRANNodeID.GlobalGNBID.GNBID.GNBID == nil {
+					return "target-id:" + a.Builder, fmt.Errorf("%s: Target ID does not name a gNB", a.Builder)
+				}
+				g := t.TargetRANNodeID.GlobalRANNodeID.GlobalGNBID.GNBID.GNBID
+				if int(g.BitLength) != 8*len(a.TargetGNB) || !bytes.Equal(g.Bytes[:len(a.TargetGNB)], a.TargetGNB) {
+					return "target-id:" + a.Builder, fmt.Errorf("%s: target gNB id on the wire %x/%d, argument %x", a.Builder, g.Bytes, g.BitLength, a.TargetGNB)
+				}
+				seenTarget = true
+			case ngapType.ProtocolIEIDSourceToTargetTransparentContainer:
+				var tc ngapType.SourceNGRANNodeToTargetNGRANNodeTransparentContainer
+				raw := append([]byte{}, ie.Value.SourceToTargetTransparentContainer.Value...)
+				if e := aper.UnmarshalWithParams(raw, &tc, "valueExt"); e != nil {
+					return "target-container:" + a.Builder, fmt.Errorf("%s: source-to-target transparent container does not decode: %v", a.Builder, e)
+				}
+				if tc.TargetCellID.NRCGI == nil || tc.TargetCellID.NRCGI.NRCellIdentity.Value.BitLength != 36 || len(tc.TargetCellID.NRCGI.NRCellIdentity.Value.Bytes) < 5 {
+					return "target-container:" + a.Builder, fmt.Errorf("%s: no 36-bit target NR cell identity in the transparent container", a.Builder)
+				}
+				got := append([]byte{}, tc.TargetCellID.NRCGI.NRCellIdentity.Value.Bytes[:5]...)
+				got[4] &= 0xf0
+				if !bytes.Equal(got, want36) {
+					return "target-cell:" + a.Builder, fmt.Errorf("%s: target NR cell identity in the transparent container %x/36, want %x/36 = target gNB id %x followed by the leading bits of the cell argument %x", a.Builder, got, want36, a.TargetGNB, a.TargetCell)
+				}
+				seenContainer = true
+			}
+		}
+		if !seenTarget || !seenContainer {
+			return "target-missing:" + a.Builder, fmt.Errorf("%s: Target ID present %v, source-to-target container present %v", a.Builder, seenTarget, seenContainer)
+		}
+	}
 	if s.pdus && !sameMultiset(c.pdu, a.PduIDs) {
 		return "pdu-ids:" + a.Builder, fmt.Errorf("%s: PDU session ids on the wire %v, argument %v", a.Builder, c.pdu, a.PduIDs)
 	}
